@@ -142,7 +142,14 @@ def decoder_probe(run, n: int, M) -> None:
             if (A['W'], A['SW'], A['CW']) != (str(ntok), py_sw, py_cw):
                 run.disagree(Disagreement(cid, impl=f'{ntok}/{py_sw}/{py_cw}', model=f"{A['W']}/{A['SW']}/{A['CW']}",
                                           spec=None, what='decoder-probe-tokens', site='str.split/str.strip'))
-            if iv != mv or iv != sv_tv:
+            # `typed_value_eq_spec_all` speaks about VALID literals of a facet-restricted atomic type (the decoder of an
+            # atomic type does not look at facets: validity is the schema processor's business; only the member
+            # selection of a union does, and unions are an equation).  A literal of the base type that the facets
+            # reject is outside the statement: model and code must still agree on it.
+            facet_invalid = st[0] == 'R' and sv_tv == 'err' and iv == mv and iv != 'err'
+            if facet_invalid:
+                st_.count('dec:facet-invalid-literal-of-restriction(outside-the-statement,model=impl)')
+            if iv != mv or (iv != sv_tv and not facet_invalid):
                 run.disagree(Disagreement(cid, impl=iv, model=mv, spec=sv_tv, what='decoder-probe',
                                           site='decoder.get_atomic_sequence'))
             # third oracle: the schema processor's own verdict on the literal
